@@ -488,3 +488,136 @@ Proof.
         intro H. apply (f_equal (@length name)) in H. simpl in H. lia.
       * rewrite lookup_set_same. discriminate.
 Qed.
+
+(* ---------- (3) an injected fault is never reported as success ---------- *)
+Section Faults.
+Variable q : quirks.
+Hypothesis Hstat : q_stat_err_ignored q = false.
+Hypothesis Hclose : q_close_err_ignored q = false.
+
+Definition okfired (s : st) (r : res) : Prop := forall s', r = Ok s' -> fired s' = fired s.
+
+Lemma okfired_bind s r f : okfired s r -> (forall s1, r = Ok s1 -> okfired s1 (f s1)) -> okfired s (bind r f).
+Proof.
+  intros H1 H2 s' E. destruct r as [s1| |]; simpl in E; try discriminate.
+  rewrite (H2 s1 eq_refl s' E). apply H1. reflexivity.
+Qed.
+Lemma okfired_err s s1 : okfired s (Err s1). Proof. intros s' H. discriminate. Qed.
+Lemma okfired_panic s s1 : okfired s (Panic s1). Proof. intros s' H. discriminate. Qed.
+Lemma okfired_ok s : okfired s (Ok s). Proof. intros s' [= ->]. reflexivity. Qed.
+
+Lemma stat_fired p s : match fst (op_stat p s) with SFault => True | SR _ => fired (snd (op_stat p s)) = fired s end.
+Proof.
+  unfold op_stat, tick. destruct (match fault s with Some j => Nat.eqb j (nops s) | None => false end); simpl; auto.
+  apply orb_false_r.
+Qed.
+
+Lemma mkdir_fired p s : okfired s (op_mkdir p s).
+Proof.
+  unfold op_mkdir, tick. destruct (match fault s with Some j => Nat.eqb j (nops s) | None => false end); cbn [fs]; [apply okfired_err|].
+  destruct p; [apply okfired_err|]. destruct (stat (fs s) p) as [[?|]| |]; try apply okfired_err.
+  destruct (lookup (n :: p) (fs s)); [apply okfired_err|]. intros s' [= <-]. simpl. apply orb_false_r.
+Qed.
+Lemma rm_fired p s : okfired s (op_removeall p s).
+Proof.
+  unfold op_removeall, tick. destruct (match fault s with Some j => Nat.eqb j (nops s) | None => false end); cbn [fs]; [apply okfired_err|].
+  destruct (stat (fs s) p); try apply okfired_err; intros s' [= <-]; simpl; apply orb_false_r.
+Qed.
+Lemma write_fired p b s : okfired s (write_file q p b s).
+Proof.
+  unfold write_file. rewrite Hclose. unfold tick, with_fs. cbn [fs nops fault fired negb].
+  destruct (match fault s with Some j => Nat.eqb j (nops s) | None => false end); [apply okfired_err|].
+  destruct p; [apply okfired_err|]. destruct (stat (fs s) p) as [[?|]| |]; try apply okfired_err.
+  destruct (lookup (n :: p) (fs s)) as [[?|]|]; try apply okfired_err;
+    repeat match goal with |- context [if ?c then _ else _] => destruct c eqn:? end; try apply okfired_err;
+    intros s' [= <-]; cbn [fired]; rewrite ?andb_true_r in *; rewrite ?orb_false_r;
+    repeat match goal with H : _ = false |- _ => rewrite H end; rewrite ?orb_false_r; reflexivity.
+Qed.
+
+Lemma do_dir_fired dry p s : okfired s (do_dir q dry p s).
+Proof.
+  unfold do_dir. rewrite Hstat. pose proof (stat_fired p s) as H. destruct (op_stat p s) as [r s1]. simpl in H.
+  destruct r as [[[?|]| |]|]; try apply okfired_err.
+  - destruct (q_kind_unchecked q); [|apply okfired_err]. intros s' [= <-]. auto.
+  - intros s' [= <-]. auto.
+  - destruct (dry && negb (q_dry_mkdir q)). intros s' [= <-]; auto.
+    intros s' E. rewrite (mkdir_fired p s1 s' E). auto.
+Qed.
+
+Lemma out_file_fired dry v p s : okfired s (out_file q dry v p s).
+Proof.
+  unfold out_file.
+  assert (G : forall b, okfired s (bind
+     (if q_kind_unchecked q then Ok s else
+        let (r, s1) := op_stat p s in
+        match r with SFault => Err s1 | SR (SNode Dir) => Err s1 | SR SNotDir => Err s1 | SR _ => Ok s1 end)
+     (fun s1 => if dry then Ok s1 else write_file q p b s1))).
+  { intro b. apply okfired_bind.
+    - destruct (q_kind_unchecked q); [apply okfired_ok|].
+      pose proof (stat_fired p s) as H. destruct (op_stat p s) as [r s1]. simpl in H.
+      destruct r as [[[?|]| |]|]; try apply okfired_err; intros s' [= <-]; auto.
+    - intros s1 _. destruct dry; [apply okfired_ok|apply write_fired]. }
+  destruct v; try apply okfired_err; apply G.
+Qed.
+
+Definition firedP (v : val) : Prop := forall r dry p s, okfired s (out q r dry v p s).
+
+Lemma loop_fired es : Forall (fun kv => firedP (snd kv)) es -> forall dry p s, okfired s (out_loop q dry p es s).
+Proof.
+  induction 1 as [|[k v'] rest Hv _ IH]; intros dry p s; cbn [out_loop].
+  - apply okfired_ok.
+  - destruct (is_multi v'); [destruct (q_multi_panic q); [apply okfired_panic|apply okfired_err]|].
+    destruct k; [|apply okfired_err]. destruct (join q p b); [|apply okfired_err].
+    apply okfired_bind. apply Hv. intros; apply IH.
+Qed.
+
+Lemma files_fired dry d f p s : optP firedP d -> optP firedP f -> okfired s (out_files q dry d f p s).
+Proof.
+  intros Hd Hf. unfold out_files. destruct d as [dv|].
+  - rewrite <- out_RDir. apply Hd.
+  - destruct f; [apply out_file_fired|apply okfired_err].
+Qed.
+
+Lemma existing_fired dry w d f p s : optP firedP d -> optP firedP f -> okfired s (out_existing q dry w d f p s).
+Proof.
+  intros Hd Hf. unfold out_existing. destruct w; try apply okfired_ok; try apply okfired_err.
+  - destruct (isSome d || isSome f); [apply okfired_err|]. destruct dry; [apply okfired_ok|apply rm_fired].
+  - destruct (eqb (isSome d) (isSome f)); [apply okfired_err|]. destruct dry.
+    + destruct (q_replace_unvalidated q); [apply okfired_ok|].
+      destruct (out_files q true d f p _); try apply okfired_ok; apply okfired_err.
+    + apply okfired_bind. apply rm_fired. intros. apply files_fired; auto.
+  - destruct d as [dv|]; [|apply okfired_err]. rewrite <- out_RDir. apply Hd.
+Qed.
+
+Lemma out_fired : forall v, firedP v.
+Proof.
+  induction v using val_ind'; intros r dry p s;
+    destruct r; rewrite ?out_REntry, ?out_RDir, ?out_RFile; try apply out_file_fired;
+    try apply okfired_err; try (unfold out_dirv; apply do_dir_fired).
+  - destruct (q_skip_unsupported q); [apply okfired_ok|apply okfired_err].
+  - destruct (q_multi_panic q); [apply okfired_panic|apply okfired_err].
+  - unfold out_dirv. apply okfired_bind. apply do_dir_fired. intros. apply loop_fired; auto.
+  - unfold out_dirv. apply okfired_bind. apply do_dir_fired. intros. apply loop_fired; auto.
+  - unfold out_tuple. destruct ifx as [conf|]; [|apply files_fired; auto].
+    destruct conf; try apply okfired_err. destruct (word_of b) as [w|]; [|apply okfired_err].
+    destruct (match w with WMerge => isSome f | _ => false end); [apply okfired_err|].
+    pose proof (stat_fired p s) as HS. destruct (op_stat p s) as [sr s1]. simpl in HS.
+    destruct sr as [[[?|]| |]|]; try apply okfired_err.
+    + intros s' E. rewrite <- HS. apply (existing_fired dry w d f p s1 H H0 s' E).
+    + intros s' E. rewrite <- HS. apply (existing_fired dry w d f p s1 H H0 s' E).
+    + intros s' E. rewrite <- HS. destruct w; try apply (files_fired dry d f p s1 H H0 s' E).
+      apply (existing_fired dry WRemove d f p s1 H H0 s' E).
+Qed.
+
+Theorem fault_never_success v p m k s' :
+  out_dir_mode q v p (init m k) = Ok s' -> fired s' = false.
+Proof.
+  unfold out_dir_mode. intro H.
+  assert (G : okfired (init m k) (bind (out q RDir true v p (init m k)) (fun s1 => out q RDir false v p s1))).
+  { apply okfired_bind. apply out_fired. intros. apply out_fired. }
+  destruct v; try discriminate; apply (G s' H).
+Qed.
+Theorem fault_never_success_file v p m k s' :
+  out_file_mode q v p (init m k) = Ok s' -> fired s' = false.
+Proof. intro H. apply (out_fired v RFile false p (init m k) s' H). Qed.
+End Faults.
